@@ -123,6 +123,7 @@ type c01Out struct {
 	Flight       []byte
 	ClientParams string // what the client put in the registration
 	Skip         string // non-empty: excluded class, nothing asserted beyond "no panic"
+	Again        string // non-empty: the station derived something else from the same message the second time
 }
 
 // ------------------------------------------------------------------------------------------------
@@ -460,6 +461,7 @@ func c01Eval(env *c01Env, c *c01Case) (out c01Out, harnessErr error) {
 		RegistrationSource:  src.Enum(),
 		RegistrationAddress: []byte{198, 51, 100, 7},
 	}
+	w2 := proto.Clone(w).(*pb.C2SWrapper) // (the station rewrites the params' type url in place)
 	func() {
 		defer c01Recover(&out.Station)
 		reg, err := env.e.rm.NewRegistrationC2SWrapper(w, c.V6)
@@ -473,6 +475,15 @@ func c01Eval(env *c01Env, c *c01Case) (out c01Out, harnessErr error) {
 		out.Station.Port = int(reg.PhantomPort)
 		tr := env.e.rm.registeredDecoys.transports[tt]
 		out.Station.Ident = []byte(tr.GetIdentifier(reg))
+		// "a fixed function of those inputs": the same message again gives the same registration
+		reg2, err := env.e.rm.NewRegistrationC2SWrapper(w2, c.V6)
+		if err != nil {
+			out.Again = "second identical registration failed: " + err.Error()
+			return
+		}
+		if !bytes.Equal(reg2.PhantomIp, reg.PhantomIp) || reg2.PhantomPort != reg.PhantomPort || !bytes.Equal(reg2.Keys.ConjureSeed, reg.Keys.ConjureSeed) || tr.GetIdentifier(reg2) != string(out.Station.Ident) {
+			out.Again = fmt.Sprintf("first %s:%d seed %x, second %s:%d seed %x (or identifiers differ)", reg.PhantomIp, reg.PhantomPort, reg.Keys.ConjureSeed, reg2.PhantomIp, reg2.PhantomPort, reg2.Keys.ConjureSeed)
+		}
 	}()
 
 	// ---- client: seed, phantom, port, wire bytes -----------------------------------------------------
@@ -624,6 +635,10 @@ func c01Judge(env *c01Env, c *c01Case, o *c01Out) (classes []string, nontrivial 
 			return
 		}
 	}
+	if o.Again != "" {
+		add("station:not-a-function", "the same registration message twice: %s", o.Again)
+		return
+	}
 	if o.Skip != "" {
 		classes = append(classes, o.Skip)
 		return
@@ -646,6 +661,15 @@ func c01Judge(env *c01Env, c *c01Case, o *c01Out) (classes []string, nontrivial 
 		if !bytes.Equal(o.RefStream, c.ClientStream) {
 			add("stream:clientkeygen!=ref", "GenerateClientSharedKeys reader yields %x, published transport stream is %x", []byte(c.ClientStream), o.RefStream)
 		}
+	}
+
+	if o.Station.OK && !bytes.Equal(o.Station.Seed, o.Ref.Seed) {
+		// root cause: everything below is derived from the seed
+		add("seed:station!=ref", "station ConjureSeed %x, published derivation (libver %d) gives %x", []byte(o.Station.Seed), c.LibVer, []byte(o.Ref.Seed))
+		return
+	}
+	if len(viols) > 0 {
+		return
 	}
 
 	// selection success -----------------------------------------------------------------------------
@@ -675,9 +699,6 @@ func c01Judge(env *c01Env, c *c01Case, o *c01Out) (classes []string, nontrivial 
 			add("select:legacy:station-fails", "libver %d client selected %s but the station failed: %s", c.LibVer, c01IPStr(o.Client.IP), o.Station.Err)
 			return
 		}
-	}
-	if !bytes.Equal(o.Station.Seed, o.Ref.Seed) {
-		add("seed:station!=ref", "station ConjureSeed %x, published derivation (libver %d) gives %x", []byte(o.Station.Seed), c.LibVer, []byte(o.Ref.Seed))
 	}
 
 	// address ---------------------------------------------------------------------------------------
@@ -1054,6 +1075,71 @@ func TestVerif_C01_derive(t *testing.T) {
 		c := c01GenCase(rt)
 		c01Check(rt, rec, env, &c)
 	})
+}
+
+// ---- port range edges ------------------------------------------------------------------------------
+//
+// An off-by-one in a port range changes the result only for seeds whose first 16-bit candidate of the
+// HKDF port stream sits at the end of the range (1 seed in 65536), which random secrets practically
+// never hit. This sub-check enumerates hash-derived secrets, keeps those whose candidate (computed by
+// the reference) is at / next to the end of either range, and runs the ordinary three-way check on them.
+
+const c01PortEdgeRule = "enumeration of secrets sha256(\"C01 portedge <VERIF_SEED> <i>\"), i < N (quick 600k, thorough 24M), libver {4,3}; kept when the first 16-bit candidate of the HKDF port stream is the last valid / first rejected value of the 1024.. range (64510/64511) or of obfs4's 22.. range (65512/65513) or next to them, or 0 / 65535; each kept secret is checked three-way for min, obfs4, prefix and dtls with port randomisation asked and granted. Every case is non-trivial. Distinct = distinct case."
+
+func TestVerif_C01_portedge(t *testing.T) {
+	rec := vh.NewRec("C01", "portedge", c01PortEdgeRule)
+	defer rec.Flush()
+	env := c01NewEnv(t)
+	if p := vh.ReplayFile(); p != "" {
+		var c c01Case
+		if _, _, err := vh.LoadReplay(p, &c); err != nil {
+			t.Fatal(err)
+		}
+		o := c01Check(t, rec, env, &c)
+		t.Logf("replay: station %s client %s reference %s", c01JSON(o.Station), c01JSON(o.Client), c01JSON(o.Ref))
+		return
+	}
+	rec.Require("cand:last-valid:1024", "cand:first-rejected:1024", "cand:last-valid:22", "cand:first-rejected:22", "port:random-granted")
+	n := vh.Pick(600_000, 24_000_000)
+	conf := []c01GenConf{{Gen: 1164, Groups: []c01ref.Group{{Weight: 3, Randomize: true, Subnets: []string{"10.11.0.0/16", "2001:db8:1::/48"}}}}}
+	for i := 0; i < n; i++ {
+		if !vh.Mine(i) {
+			continue
+		}
+		secret := sha256.Sum256([]byte(fmt.Sprintf("C01 portedge %d %d", vh.Seed(), i)))
+		for _, lv := range []uint32{4, 3} {
+			seed, _, err := c01ref.Keys(lv, secret[:])
+			if err != nil {
+				t.Fatalf("harness problem: %v", err)
+			}
+			var b [2]byte
+			if _, err := io.ReadFull(c01ref.HKDF(seed, nil, []byte("phantom-select-dst-port")), b[:]); err != nil {
+				t.Fatalf("harness problem: %v", err)
+			}
+			cand := int(b[0])<<8 | int(b[1])
+			var class string
+			switch {
+			case cand == 64510:
+				class = "cand:last-valid:1024"
+			case cand == 64511:
+				class = "cand:first-rejected:1024"
+			case cand == 65512:
+				class = "cand:last-valid:22"
+			case cand == 65513:
+				class = "cand:first-rejected:22"
+			case cand == 0 || cand == 65535 || (cand >= 64507 && cand <= 64514) || (cand >= 65509 && cand <= 65516):
+				class = "cand:near-edge"
+			default:
+				continue
+			}
+			rec.Class(class)
+			for ti, tr := range []string{c01ref.Min, c01ref.Obfs4, c01ref.Prefix, c01ref.DTLS} {
+				c := c01Case{Secret: append([]byte(nil), secret[:]...), LibVer: lv, Gen: 1164, Conf: conf, V6: (i+ti)%2 == 1,
+					Transport: tr, ParamMode: "set", Randomize: true, PrefixID: int32(1 + i%9), Source: int32(pb.RegistrationSource_API)}
+				c01Check(t, rec, env, &c)
+			}
+		}
+	}
 }
 
 // ---- golden vectors ------------------------------------------------------------------------------
